@@ -19,6 +19,8 @@ func init() {
 			}
 		}
 		pairs = append(pairs, extra...)
+		// ranks 5..7 with several non-unit leading axes (beyond small-rank fast paths)
+		pairs = append(pairs, [2][]int{{2, 2, 1, 1, 1, 2}, {2, 1, 1, 1, 1, 2}}, [2][]int{{2, 1, 2, 1, 1, 1, 2}, {2, 1}}, [2][]int{{2, 2, 1, 2, 1}, {1, 2, 1, 1, 2}}, [2][]int{{2, 3, 1, 1, 1, 2}, {3, 1, 1, 1, 1}})
 		add := func(op string, pr [2][]int, dt string, same bool) {
 			p.Jobs = append(p.Jobs, Job{Harness: "opset13.H_C03", Case: map[string]interface{}{"op": op, "a": pr[0], "b": pr[1], "dtype": dt, "same": same}})
 		}
